@@ -321,9 +321,55 @@ pub fn check_flush_snapshot(idx: Idx, start: &SeqModel, ops: &[Op], out: &ExecOu
     let mut problems = Vec::new();
     match util::block_on(crash::recover(content, &exp, Backend::Mem)) {
         Ok(rec) => {
-            let (ps, _) = util::block_on(crash::check_state(&rec.fx, &exp));
+            let (ps, resolved) = util::block_on(crash::check_state(&rec.fx, &exp));
+            let clean = ps.is_empty();
             for (sig, msg) in ps {
                 problems.push((format!("flush-snapshot|{sig}"), format!("state persisted when the concurrent flush returned: {msg}")));
+            }
+            // ONE global cut: the recovered documents TOGETHER must be the state
+            // after one set of calls that is closed under real-time precedence,
+            // contains every call returned before the flush began and none
+            // started after it returned (per-document images alone would accept
+            // "the later call without the earlier one" across documents).
+            if clean {
+                let others: Vec<usize> = (0..ops.len()).filter(|i| *i != ft && out.spans[*i].is_some()).collect();
+                let span = |i: usize| out.spans[i].unwrap();
+                let mut found = false;
+                'sets: for mask in 0u32..(1u32 << others.len()) {
+                    let inside = |i: usize| others.iter().position(|x| *x == i).map(|k| mask & (1 << k) != 0).unwrap_or(false);
+                    for &a in &others {
+                        if span(a).1 < fspan.0 && !inside(a) {
+                            continue 'sets;
+                        }
+                        if span(a).0 > fspan.1 && inside(a) {
+                            continue 'sets;
+                        }
+                        if inside(a) && others.iter().any(|&b| span(b).1 < span(a).0 && !inside(b)) {
+                            continue 'sets;
+                        }
+                    }
+                    let mut m = start.clone();
+                    for &i in order {
+                        if inside(i)
+                            && let Some(o) = &out.outcomes[i]
+                        {
+                            m.apply(&ops[i], o);
+                        }
+                    }
+                    if m.docs.docs == resolved.docs {
+                        found = true;
+                        break;
+                    }
+                }
+                if !found {
+                    problems.push((
+                        "flush-snapshot|not-a-prefix".into(),
+                        format!(
+                            "state persisted when the concurrent flush returned is no prefix of the accepted order: recovered documents {:?} equal the state after NO set of calls that is closed under real-time order (spans {:?}, flush {:?})",
+                            resolved.docs, out.spans, fspan
+                        ),
+                    ));
+                }
             }
         }
         Err(e) => problems.push(("flush-snapshot|recover".into(), format!("state persisted when the concurrent flush returned does not reopen: {e}"))),
